@@ -168,14 +168,19 @@ pub struct TKey(Box<KeyInner>);
 
 fn key_name(id: u64) -> String { format!("tenant-{:03}/object-{}", id % 7, id) }
 
+/// Key names compare without regard to case, and every second key the harness builds spells its name in upper case: the key a caller
+/// passes is *equal* to the stored one but hardly ever *identical* to it (as with normalised paths, host names, e-mail addresses).
+static SPELLING: AtomicU64 = AtomicU64::new(0);
+
 impl TKey {
     pub fn of(id: u64) -> TKey {
         LEDGER.keys_created.fetch_add(1, Ordering::Relaxed);
-        TKey(Box::new(KeyInner { name: key_name(id), id }))
+        let name = if SPELLING.fetch_add(1, Ordering::Relaxed) % 2 == 1 { key_name(id).to_ascii_uppercase() } else { key_name(id) };
+        TKey(Box::new(KeyInner { name, id }))
     }
     /// the id, after checking that the name still belongs to it
     pub fn id(&self) -> u64 {
-        if self.0.name != key_name(self.0.id) { integrity_failure(format!("key id {} carries the name {:?}", self.0.id, self.0.name)); }
+        if !self.0.name.eq_ignore_ascii_case(&key_name(self.0.id)) { integrity_failure(format!("key id {} carries the name {:?}", self.0.id, self.0.name)); }
         self.0.id
     }
 }
@@ -184,7 +189,8 @@ impl Hash for TKey {
     fn hash<H: Hasher>(&self, state: &mut H) {
         LEDGER.hashes.fetch_add(1, Ordering::Relaxed);
         user_point(UserSite::Hash);
-        self.0.name.hash(state);
+        // consistent with Eq: the spelling does not enter the hash
+        for byte in self.0.name.bytes() { state.write_u8(byte.to_ascii_lowercase()); }
         self.0.id.hash(state);
     }
 }
@@ -193,7 +199,7 @@ impl PartialEq for TKey {
     fn eq(&self, other: &TKey) -> bool {
         LEDGER.eqs.fetch_add(1, Ordering::Relaxed);
         user_point(UserSite::Eq);
-        self.0.name == other.0.name
+        self.0.name.eq_ignore_ascii_case(&other.0.name)
     }
 }
 
